@@ -17,6 +17,9 @@ def T(w):
 
 
 def drive(ctx):
+    from .. import suite
+
+    suite.trace_suite(ctx)      # the repository's own tests, recorded by the external tracer
     q = ctx.quick()
     rnd = ctx.rnd
     times = TIMES + [(rnd.randrange(24), rnd.randrange(60), rnd.randrange(60), rnd.randrange(10 ** 6)) for _ in range(6)]
